@@ -328,8 +328,12 @@ def HTerm.plain (env : Env) : HTerm → Option Value
   | .agg .. => none
 
 /-- group key = the non-aggregate head terms in head order (`build_aggregation`, ir_builder:1562). -/
+def HTerm.isPlain : HTerm → Bool
+  | .agg .. => false
+  | _ => true
+
 def groupKey (hargs : List HTerm) (env : Env) : Option Tuple :=
-  optMapM (HTerm.plain env) (hargs.filter (fun | .agg .. => false | _ => true))
+  optMapM (HTerm.plain env) (hargs.filter HTerm.isPlain)
 
 def aggArgs (hargs : List HTerm) : List (AggF × String) :=
   hargs.filterMap (fun | .agg f x => some (f, x) | _ => none)
